@@ -7,6 +7,7 @@ from .. import astq
 from ..events import EventRule, evs, outcome_name, run_function
 from ..interp import AV, BASE_TOP, EXT_TOP, UNK, BaseRule, Out, const, exc, compute_relevant
 from ..model import AnalysisError
+from ..rows import helper_closure
 from .c01 import is_queue_call, queue_aliases, queue_field, run_lease
 
 CP = "urllib3.connectionpool"
@@ -152,30 +153,77 @@ def run(ctx):
 
     # ------------------------------------------------------------------ R3 close-race-safe dereference
     R3 = ctx.rule("C02-R3", "every dereference of the queue field outside __init__ tolerates a concurrent close(): it is inside a try that catches AttributeError, or goes through a local snapshot tested for None", "E3 + E8")
+    # Decided by interpretation: every read of the queue field yields a fresh maybe-None value (a concurrent close() may have
+    # run just before it); a method call on such a value raises AttributeError unless a None test has refined it; no such
+    # AttributeError may leave the method.  A local snapshot keeps its refinement, a second read of the field does not.
+    class QRule(BaseRule):
+        def __init__(self, writer):
+            self.sites = {}
+            self.writer = writer
+
+        def getattr(self, it, st, node, base):
+            if base.kind == "self" and node.attr == qf and isinstance(node.ctx, ast.Load):
+                if self.writer:
+                    # the property's schedules have at most one thread in close(); the writers of the field (R1: __init__ and
+                    # close only) therefore read a stable value
+                    if ("self", qf) in st.heap:
+                        return None
+                    return AV("unk", sym="q@stable")
+                return AV("unk", sym=f"q@{node.lineno}.{node.col_offset}")
+            return None
+
+        def call(self, it, st, node, recv, pos, kw):
+            if recv is None or not (recv.sym or "").startswith("q@") or not isinstance(node.func, ast.Attribute):
+                return None
+            v = st.view(recv)
+            key = (node.lineno, node.col_offset)
+            self.sites.setdefault(key, (node, True))
+            outs = []
+            s = st.copy()
+            s.log(node, f"{ast.unparse(node.func)}() on the queue")
+            outs.append(Out("normal", s, AV("unk", sym=f"item@{node.lineno}")))
+            leaf = node.func.attr
+            if leaf in ("get", "get_nowait"):
+                outs.append(Out("raise", st.copy(), exc("queue.Empty")))
+            if leaf in ("put", "put_nowait"):
+                outs.append(Out("raise", st.copy(), exc("queue.Full")))
+            if v.none is not False:
+                s2 = st.copy()
+                s2.log(node, f"{ast.unparse(node.func)}: the queue field was set to None by a concurrent close() -> AttributeError")
+                s2.ts["noneref"] = ast.unparse(node.func)
+                outs.append(Out("raise", s2, exc("builtins.AttributeError")))
+                if v.none is True:
+                    outs = outs[-1:]
+            return outs
+
     n = 0
     for fi in m.repo_funcs():
         if not (fi.cls and m.issub(fi.clsq, POOL)) or fi.name == "__init__":
             continue
-        aliases = queue_aliases(fi.node, qf)
+        if not any(isinstance(x, ast.Attribute) and astq.is_self_attr(x, qf) for x in astq.walk_fn(fi.node)):
+            continue
+        qr = QRule(writer=any(a_ == qf for a_, _ in astq.self_stores(fi.node)))
+        helpers = set(helper_closure(m, [fi], stop=("_get_conn", "_put_conn", "_new_conn", "_make_request", "_prepare_proxy", "_validate_conn"))) - {fi.qual}
+        outs, it = run_function(m, fi, qr, fi.clsq, inline=helpers, budget=400000)
+        ctx.states += it.budget.steps
+        n += len(qr.sites)
+        bad = [o for o in outs if o.kind == "raise" and o.val.val == "builtins.AttributeError" and o.st.ts.get("noneref")]
+        seen3 = set()
+        for o in bad:
+            k_ = o.st.ts["noneref"]
+            if k_ in seen3:
+                continue
+            seen3.add(k_)
+            ctx.ob(R3, fi.qual, f"`{k_}()` tolerates a concurrent close()", False,
+                   "the queue field may be None here if close() runs concurrently and the AttributeError reaches the caller (no None test on a snapshot, no handler)", witness=o.st.witness(), node=fi.node)
+        if not bad:
+            ctx.ob(R3, fi.qual, f"{len(qr.sites)} queue method call(s): no AttributeError from a None queue leaves the method", True)
+        # non-call attribute loads on the field itself (self.<q>.<attr> without a call) are not modelled: flag them
         for node in astq.walk_fn(fi.node):
-            if isinstance(node, ast.Attribute) and astq.is_self_attr(node.value, qf):
-                n += 1
+            if isinstance(node, ast.Attribute) and astq.is_self_attr(node.value, qf) and not (isinstance(astq.parent(node), ast.Call) and astq.parent(node).func is node):
                 tries = astq.enclosing_tries(astq.stmt_of(node))
                 guarded = any("AttributeError" in astq.handler_type_names(h) for t in tries for h in t.handlers)
-                ctx.ob(R3, fi.qual, astq.text(astq.parent(node)) if isinstance(astq.parent(node), ast.Call) else astq.text(node), guarded,
-                       "inside try/except AttributeError" if guarded else "self.%s may be None here if close() runs concurrently: AttributeError reaches the caller" % qf, node=node)
-            if isinstance(node, ast.Attribute) and isinstance(node.value, ast.Name) and node.value.id in aliases and isinstance(node.ctx, ast.Load):
-                n += 1
-                # snapshot: must be dominated by a None test of the alias (enclosing `if alias is not None` / `if alias`)
-                ok = False
-                for a in astq.ancestors(node):
-                    if isinstance(a, ast.If) and astq.in_body_of(node, a, "body"):
-                        t = astq.text(a.test)
-                        if t in (f"{node.value.id} is not None", node.value.id):
-                            ok = True
-                tries = astq.enclosing_tries(astq.stmt_of(node))
-                ok = ok or any("AttributeError" in astq.handler_type_names(h) for t in tries for h in t.handlers)
-                ctx.ob(R3, fi.qual, f"snapshot use {astq.text(node)}", ok, "" if ok else "snapshot of the queue field used without a None test", node=node)
+                ctx.ob(R3, fi.qual, f"attribute load `{astq.text(node)}`", guarded, "" if guarded else "self.%s may be None here" % qf, node=node)
     ctx.sites(R3, n, 2, "queue dereferences outside __init__")
 
     # ------------------------------------------------------------------ R4 swap then drain
@@ -212,24 +260,33 @@ def run(ctx):
     # ------------------------------------------------------------------ R5 finalizer
     R5 = ctx.rule("C02-R5", "the pool's finalizer does not keep the pool alive: weakref.finalize gets a module-level function and values that do not reach self", "E6")
     init = m.method(POOL, "__init__")
-    fins = [c for c in astq.calls(init.node) if astq.call_text(c) == "weakref.finalize"]
-    ctx.sites(R5, len(fins), 1, "weakref.finalize call")
-    for c in fins:
-        args = c.args
-        ok_self = args and astq.text(args[0]) == "self"
-        cb = args[1] if len(args) > 1 else None
-        cbq = m.resolve_name(init.module, cb) if cb is not None else None
-        ok_cb = cbq in m.funcs and m.funcs[cbq].cls is None
-        rest = args[2:]
-        bad = []
-        for a in rest + [k.value for k in c.keywords]:
-            if "self" in astq.names_in(a):
-                bad.append(astq.text(a))
-        # the local handed over must be the queue object itself
-        q_ok = all(isinstance(a, ast.Name) and a.id in queue_aliases(init.node, qf) for a in rest) and rest
-        ctx.ob(R5, init.qual, "finalize callback is a module-level function", bool(ok_self and ok_cb), astq.text(c), node=c)
-        ctx.ob(R5, init.qual, "finalize arguments do not reference self", not bad, f"captures {bad}" if bad else "", node=c)
-        ctx.ob(R5, init.qual, "finalize closes the pool's own queue", bool(q_ok), astq.text(c), node=c)
+    from ..rows import GenRule, effect_rows
+    from ..terms import subterms
+    r5rule = GenRule(ctx, init.module, events=lambda t_, n_: "finalize" if t_ in ("weakref.finalize", "finalize") else None)
+    r5rows = [r for r in effect_rows(ctx, init, r5rule, POOL, budget=600000) if r.returns]
+    ctx.sites(R5, len(r5rows), 1, "returning rows of the pool constructor")
+    seen5 = set()
+    for r in r5rows:
+        fin = r.events("finalize")
+        stored = [e_[3] for e_ in r.events("store") if e_[1] == "self" and e_[2] == qf]
+        k_ = (tuple(fin), tuple(stored))
+        if k_ in seen5:
+            continue
+        seen5.add(k_)
+        if not fin:
+            ctx.ob(R5, init.qual, "a finalizer is registered on every constructed pool", False, "no weakref.finalize on this path: sockets queued in a dropped pool stay open", witness=r.witness(), node=init.node)
+            continue
+        for e_ in fin:
+            args = [a_ for a_ in e_[1:] if isinstance(a_, str)]
+            cbq = args[1][3:] if len(args) > 1 and args[1].startswith("fn:") else None
+            ok_cb = args[:1] == ["self"] and cbq in m.funcs and m.funcs[cbq].cls is None
+            rest = args[2:]
+            meths = {n_ for c_ in m.mro(POOL) if c_ in m.classes for n_ in m.classes[c_].methods}
+            bad = [a_ for a_ in rest if any(x == "self" or (x.startswith("self.") and x[5:] in meths) for x in subterms(a_))]
+            q_ok = bool(rest) and bool(stored) and all(a_ == stored[-1].split("=")[-1] for a_ in rest)
+            ctx.ob(R5, init.qual, "finalize callback is a module-level function", bool(ok_cb), str(e_), witness=r.witness(), node=init.node)
+            ctx.ob(R5, init.qual, "finalize arguments do not reference self", not bad, f"captures {bad}" if bad else "", witness=r.witness(), node=init.node)
+            ctx.ob(R5, init.qual, "finalize closes the pool's own queue", bool(q_ok), f"finalize args {rest}, queue field holds {stored}", witness=r.witness(), node=init.node)
 
     # ------------------------------------------------------------------ R6 probe lock pairing + lock order
     R6 = ctx.rule("C02-R6", "the HTTP/2 probe lock taken by acquire_and_get (returns None => held) is released exactly once on every path out of HTTPSConnection.connect; lock regions are acyclic and contain no blocking pool operation", "E4 + E8")
